@@ -81,8 +81,8 @@ class RefWire:
             return out
         if t=='PublicKey':
             d=dict(zip(self.src.structs[t],f))
-            if deref(d['typ']).vname!='Ed25519': raise NoRef('non-ed25519 key')
-            out={'keyid':self.enc(d['key_id']),'keytype':'ed25519','scheme':self.enc(d['scheme']),'keyval':{'public':self.enc(d['value'])}}
+            if deref(d['typ']).vname not in ('Ed25519','Ecdsa'): raise NoRef('RSA key (PEM text)')
+            out={'keyid':self.enc(d['key_id']),'keytype':KT[deref(d['typ']).vname],'scheme':self.enc(d['scheme']),'keyval':{'public':self.enc(d['value'])}}
             algs=self.enc(d['keyid_hash_algorithms'])
             if algs is not None: out['keyid_hash_algorithms']=algs
             return out
